@@ -11,3 +11,13 @@ fn a_long_run_of_malformed_numbers_does_not_recurse() {
     assert_eq!(tokens, 0); // the character after the dot is skipped with the number
     assert_eq!(lexer.errors.diagnostics.len(), 300_000);
 }
+
+#[test]
+fn many_literals_with_escapes_need_memory_in_proportion_to_the_script() {
+    // 100 000 short literals with an escape: 700 KB of source must not need gigabytes.
+    let src = "\"a\\tb\"\n".repeat(100_000);
+    let arena = Arena::new(64 << 20).unwrap();
+    let mut lexer = Lexer::new(&src, &arena);
+    assert_eq!(lexer.by_ref().count(), 100_000);
+    assert!(lexer.errors.diagnostics.is_empty());
+}
